@@ -80,10 +80,11 @@ def main(argv=None):
     if a.cmd == "baseline":
         code, ctx, lines = report.run_property(a.prop, "quick", root=a.root, write=False, quiet=True)
         keys = sorted(o.key for o in ctx.obs.values() if not o.soft)
-        per = {}
+        per_sets = {}
         for o in ctx.obs.values():
             if not o.soft:
-                per[o.rule] = per.get(o.rule, 0) + 1
+                per_sets.setdefault(o.rule, set()).add(report._untag(o.key))
+        per = {r: len(v) for r, v in per_sets.items()}
         out = {"property": a.prop, "confirmed_on": "pinned tree + fix commits", "obligations": keys, "min_per_rule": per}
         p = report.VERIF / "baseline" / (a.prop + ".obligations.json")
         p.parent.mkdir(exist_ok=True)
